@@ -485,6 +485,10 @@ pub enum NgMode {
     StableIter,
     StableChannel,
     TwoValChannel,
+    /// channel variants with a bounded channel of the given capacity (0 = rendezvous) and a consumer
+    /// thread: the search blocks while the channel is full
+    StableBounded(u8),
+    TwoValBounded(u8),
 }
 
 #[derive(Clone, Debug, Serialize, Deserialize)]
@@ -549,7 +553,7 @@ fn c05_check(c: &C05Case, st: &mut Stats) -> CheckResult {
     let n = c.sem.adf.n();
     let o = Oracle::new(&c.sem.adf.acs);
     let expected = match c.mode {
-        NgMode::TwoValChannel => o.two_valued(),
+        NgMode::TwoValChannel | NgMode::TwoValBounded(_) => o.two_valued(),
         _ => oracle::stable(&c.sem.adf.acs),
     };
     let (grd, _) = o.grounded();
@@ -582,6 +586,53 @@ fn c05_check(c: &C05Case, st: &mut Stats) -> CheckResult {
         let run = catch(|| -> Result<Vec<Vec<Term>>, String> {
             match c.mode {
                 NgMode::StableIter => Ok(a.stable_nogood(heu).collect()),
+                NgMode::StableBounded(cap) | NgMode::TwoValBounded(cap) => {
+                    let (s, r) = crossbeam_channel::bounded::<Vec<Term>>((cap % 3) as usize);
+                    let done = std::sync::Arc::new(std::sync::atomic::AtomicBool::new(false));
+                    let done2 = done.clone();
+                    // the consumer takes results at its own pace until the channel closes
+                    let consumer = std::thread::spawn(move || -> Result<Vec<Vec<Term>>, String> {
+                        let mut got = Vec::new();
+                        loop {
+                            match r.recv_timeout(std::time::Duration::from_millis(20)) {
+                                Ok(m) => {
+                                    got.push(m);
+                                    std::thread::yield_now();
+                                }
+                                Err(crossbeam_channel::RecvTimeoutError::Disconnected) => return Ok(got),
+                                Err(crossbeam_channel::RecvTimeoutError::Timeout) => {
+                                    if done2.load(std::sync::atomic::Ordering::SeqCst) {
+                                        // the call has returned: everything it sent is in the channel
+                                        loop {
+                                            match r.try_recv() {
+                                                Ok(m) => got.push(m),
+                                                Err(crossbeam_channel::TryRecvError::Disconnected) => return Ok(got),
+                                                Err(crossbeam_channel::TryRecvError::Empty) => {
+                                                    return Err("the sender handed to the channel variant is still alive after the call returned: a consumer loop over the channel would never end".into())
+                                                }
+                                            }
+                                        }
+                                    }
+                                }
+                            }
+                        }
+                    });
+                    struct SetOnDrop(std::sync::Arc<std::sync::atomic::AtomicBool>);
+                    impl Drop for SetOnDrop {
+                        fn drop(&mut self) {
+                            self.0.store(true, std::sync::atomic::Ordering::SeqCst);
+                        }
+                    }
+                    {
+                        let _g = SetOnDrop(done);
+                        if matches!(c.mode, NgMode::StableBounded(_)) {
+                            a.stable_nogood_channel(heu, s);
+                        } else {
+                            a.two_val_nogood_channel(heu, s);
+                        }
+                    }
+                    consumer.join().map_err(|_| "consumer thread panicked".to_string())?
+                }
                 NgMode::StableChannel | NgMode::TwoValChannel => {
                     let (s, r) = crossbeam_channel::unbounded::<Vec<Term>>();
                     if c.mode == NgMode::StableChannel {
@@ -675,7 +726,7 @@ pub fn c05(tier: Tier) -> PropSpec {
         rule: "generated ADF (as C01, n<=6/7) x heuristic in {Simple, MinModMinPathsMaxVarImp, MinModMaxVarImpMinPaths, \
                Rand(generated 32-byte seed), Custom: choice tape / interpretation hash / last-undecided / first-false \
                (all always propose an undecided statement)} x mode in {stable_nogood, stable_nogood_channel, \
-               two_val_nogood_channel} x back-end in {native, hybrid+/-pre}. Oracle: multiset equals the stable (two-valued) models of \
+               two_val_nogood_channel; both channel variants also with a bounded channel of capacity 0..2 drained by a consumer thread} x back-end in {native, hybrid+/-pre}. Oracle: multiset equals the stable (two-valued) models of \
                the definition; termination as a step bound (hook H1: <= 2(2n+4)(3^n+1) main-loop iterations); channel \
                variants: after the call try_recv() is Disconnected. Non-trivial: grounded leaves >= 2 statements undecided and the search \
                made >= 2 heuristic calls (custom) or >= 6 loop iterations; distinct by (ADF, heuristic, mode, back-end).",
@@ -689,7 +740,7 @@ pub fn c05(tier: Tier) -> PropSpec {
             tier.pick(150000, 2000000),
             300,
             move || {
-                (sem_case(1, hi), heu_strategy(), prop_oneof![Just(NgMode::StableIter), Just(NgMode::StableChannel), Just(NgMode::TwoValChannel)], 0u8..3)
+                (sem_case(1, hi), heu_strategy(), prop_oneof![4 => Just(NgMode::StableIter), 4 => Just(NgMode::StableChannel), 4 => Just(NgMode::TwoValChannel), 1 => (0u8..3).prop_map(NgMode::StableBounded), 1 => (0u8..3).prop_map(NgMode::TwoValBounded)], 0u8..3)
                     .prop_map(|(sem, heu, mode, backend)| C05Case { sem, heu, mode, backend })
                     .boxed()
             },
